@@ -11,8 +11,8 @@ MIRI = {
     "c16": {"seeds": 4, "params": {"cases": 2, "maxlen": 17}, "timeout_s": 900},
     "c09": {"seeds": 16, "params": {"cases": 2}, "timeout_s": 1500},
     "c10": {"seeds": 48, "params": {"cases": 3}, "timeout_s": 1500},
-    "c05": {"seeds": 32, "params": {"cases": 1}, "timeout_s": 1800},
-    "c06": {"seeds": 48, "params": {"cases": 2}, "timeout_s": 2400},
+    "c05": {"seeds": 16, "params": {"cases": 1}, "timeout_s": 2400},
+    "c06": {"seeds": 16, "params": {"cases": 2}, "timeout_s": 2400},
 }
 TSAN = {
     "c10": {"params": {"cases": 300}, "timeout_s": 1500},
